@@ -1,5 +1,5 @@
 """C04 — parallelism limits: --jobs bound, exclusive sequential tasks, distinct slots."""
-from .. import graph, model
+from .. import graph, model, reallayer
 from ..runner import Outcome
 
 ID = "C04"
@@ -9,7 +9,8 @@ RULE = ("Hypothesis-generated graph cases biased to wide layers of parallelizabl
         "complete slots out of order. Oracle = replay of the event log maintaining the set of running task processes. "
         "Non-trivial = JOBS>=2, >=2 processes in flight at some instant, and a slot value handed out again after an "
         "out-of-order completion. Distinct = SHA-1 of case JSON."
-        " A quarter of the cases start Conductor with COND_SLOT=7 already in its own environment.")
+        " A quarter of the cases start Conductor with COND_SLOT=7 already in its own environment."
+        + reallayer.RULE_NOTE)
 ASSUMPTIONS = ["a task process counts as running from its spawn until its exit event in the virtual kernel's log",
                "group/combine steps are instantaneous at their 'Running' print"]
 ESSENTIAL = ["slot_reused_out_of_order", "sequential_ready_while_parallel_inflight", "sync_step_with_parallel_tasks",
@@ -28,7 +29,8 @@ def strategy(tier):
         case = draw(st.one_of(graph.layered_case(flags=("stop_early",)), _general(tier)))
         case["outer_slot"] = draw(st.sampled_from([False, False, False, True]))
         return case
-    return with_env()
+    real = st.one_of(reallayer.real_case(flags=("stop_early",), layered=True), reallayer.real_case(max_tasks=9, flags=("again",)))
+    return reallayer.mixed(with_env(), real)
 
 
 def _general(tier):
@@ -44,6 +46,8 @@ def examples(tier):
 
 def run_case(case):
     # Conductor itself may be running inside a task of an outer `cond run -j N`: its own environment then carries COND_SLOT
+    if case.get("layer") == "real":
+        return check(case, reallayer.run_real(case))
     env = {"COND_SLOT": "7"} if case.get("outer_slot") else {"COND_SLOT": None}
     return check(case, graph.run_graph_case(case, env=env))
 
@@ -51,7 +55,7 @@ def run_case(case):
 def check(case, res):
     obs = graph.Obs(case, res)
     v = []
-    labels = []
+    labels = ["real_processes"] if case.get("layer") == "real" else []
     if res["status"] in ("deadlock", "livelock"):
         return Outcome([], ["deadlock_ignored_here"], False, obs.brief())
     J = case["jobs"] if case["jobs"] is not None else 1
